@@ -21,6 +21,7 @@ def dispatch (j : Json) : Except String Json := do
   | "sanity" => cmdSanity j
   | "topo" => cmdTopo j
   | "timing" => cmdTiming j
+  | "fsel" => cmdFsel j
   | "vemit" => cmdVemit j
   | "vsim" => cmdVsim j
   | _ => throw s!"unknown cmd {cmd}"
